@@ -170,6 +170,28 @@ def run(ctx: Ctx) -> RuleResult:
                                             construct='bare-pattern-text:' + norm(n))
     if n_uses < 4:
         raise AnalysisError('R-LEX-PRECEDENCE: found %d consumers of Pattern.to_regexp(), expected at least 4' % n_uses)
+    # ---- every Scanner of a lexer is built with the lexer's own flags / re module / bytes mode ---------------------
+    n_sc = 0
+    for f in repo.functions_in('lark.lexer'):
+        for n in f.body_nodes():
+            if isinstance(n, ast.Call) and norm(n.func) == 'Scanner':
+                n_sc += 1
+                args = list(n.args) + [None] * 4
+                kw = {k.arg: k.value for k in n.keywords}
+                flags, remod, ub = args[1] or kw.get('g_regex_flags'), args[2] or kw.get('re_'), args[3] or kw.get('use_bytes')
+                ok = flags is not None and norm(flags) in ('self.g_regex_flags', 'g_regex_flags') \
+                    and remod is not None and norm(remod) in ('self.re', 're_') \
+                    and ub is not None and norm(ub) in ('self.use_bytes', 'use_bytes')
+                res.ob(f_loc(f, n), 'Scanner(%s, %s, %s): the lexer\'s own configuration' % (norm(flags) if flags is not None else None,
+                                                                                          norm(remod) if remod is not None else None,
+                                                                                          norm(ub) if ub is not None else None), ok,
+                       props=['C07', 'C14'])
+                if not ok:
+                    res.finding(f, enclosing_stmt(n), 'a Scanner is built with flags/re module/bytes mode other than the lexer\'s own '
+                                '(%s): this scanner matches differently from its siblings (e.g. scan()\'s start search ignores '
+                                'g_regex_flags)' % norm(n)[:90], construct='scanner-config:' + norm(n)[:80], props=['C07', 'C14'])
+    if n_sc < 3:
+        raise AnalysisError('R-LEX-PRECEDENCE: found %d Scanner constructions, expected at least 3' % n_sc)
     # ---- keyword exception --------------------------------------------------------------------------------
     body = cuf
     prio = [n for n in cuf.body_nodes() if isinstance(n, ast.If) and isinstance(n.test, ast.Compare) and isinstance(n.test.ops[0], ast.NotEq)
